@@ -83,7 +83,23 @@ func akeMutations(c *Ctx) []Mut {
 // C01: the key exchange authenticates the peer and both sides agree on the session
 func genC01(c *Ctx) {
 	c.Rep.Rule = "handshakes (query / refresh while encrypted / third party with its own key) in which AKE messages are damaged per field, replaced by out-of-range DH values, truncated, re-tagged, duplicated, replayed from another session, or re-signed by an impersonator advertising the victim's key; every step compared with the abstract machine; oracle: an encrypted conversation reports a peer key whose owner's genuine signature message it has received, equal SSID implies complementary highlight and mutual readability"
-	n := 10
+	// systematic part: every AKE message x every mutation x both orders
+	akeSweep(c, !c.Thorough(), func(with, without *sweepRun) {
+		s := with.s
+		signed := map[int]map[int]bool{1: {2: true}, 2: {1: true}} // both parties' genuine signature messages are delivered
+		c01Check(c, s, signed)
+		for who := 1; who <= 2; who++ {
+			if !s.ps[who].c.IsEncrypted() && with.rejected {
+				c.Violate("ake-incomplete-after-rejected-message", with.label, "the genuine messages were all delivered, the damaged copy was rejected, yet the exchange did not complete", s.trace)
+				break
+			}
+		}
+		if s.panicked {
+			c.Violate("panic", "ake", "a call panicked", s.trace)
+		}
+		c.AddScenario(s, with.pols)
+	})
+	n := 25
 	if c.Thorough() {
 		n = 300
 	}
